@@ -167,6 +167,8 @@ pub struct DynPlan {
     pub only_with_bad: bool,
     /// continuations consist of queries only
     pub queries_only: bool,
+    /// continuations are updates followed by one final query
+    pub updates_then_query: bool,
 }
 
 pub fn run_plan(plan: &DynPlan) -> DynAcc {
@@ -216,6 +218,7 @@ fn alphabet(plan: &DynPlan, kind: DynKind) -> Alphabet {
         nocert_queries: false,
         max_queries: plan.max_queries,
         queries_only: plan.queries_only,
+        updates_then_query: plan.updates_then_query,
         nodes: std::cell::Cell::new(0),
     }
 }
@@ -271,11 +274,11 @@ pub fn run_c08(tier: Tier) -> i32 {
     let kinds = all_kinds();
     let choice = |d: usize| Backend::Choice(ExploreCfg { dev_bound: Some(d), fv: FvPolicy::False, cap_alts: 16, max_execs: 400, ..ExploreCfg::default() });
     let mut plans = vec![
-        DynPlan { name: "2 labels, from the empty solver, CaDiCaL".into(), kinds: kinds.clone(), n_labels: 2, depth: if thorough { 9 } else { 7 }, bad_budget: 0, max_queries: 3, prefixes: vec![vec![]], backend: Backend::Cadical, only_with_bad: false, queries_only: false },
-        DynPlan { name: "3 labels, from the empty solver, CaDiCaL".into(), kinds: kinds.clone(), n_labels: 3, depth: if thorough { 7 } else { 6 }, bad_budget: 0, max_queries: 3, prefixes: vec![vec![]], backend: Backend::Cadical, only_with_bad: false, queries_only: false },
-        DynPlan { name: "2 labels, from the empty solver, oracle choices".into(), kinds: kinds.clone(), n_labels: 2, depth: if thorough { 7 } else { 6 }, bad_budget: 0, max_queries: 3, prefixes: vec![vec![]], backend: choice(if thorough { 2 } else { 1 }), only_with_bad: false, queries_only: false },
-        DynPlan { name: "3 labels, from the empty solver, oracle choices".into(), kinds: kinds.clone(), n_labels: 3, depth: if thorough { 6 } else { 5 }, bad_budget: 0, max_queries: 2, prefixes: vec![vec![]], backend: choice(1), only_with_bad: false, queries_only: false },
-        DynPlan { name: "non-initial starts: every framework with <=3 arguments, compact and sparse-id construction, then all continuations, oracle choices".into(), kinds: kinds.clone(), n_labels: 3, depth: if thorough { 3 } else { 2 }, bad_budget: 0, max_queries: 3, prefixes: start_states(3), backend: choice(2), only_with_bad: false, queries_only: false },
+        DynPlan { name: "2 labels, from the empty solver, CaDiCaL".into(), kinds: kinds.clone(), n_labels: 2, depth: if thorough { 9 } else { 7 }, bad_budget: 0, max_queries: 3, prefixes: vec![vec![]], backend: Backend::Cadical, only_with_bad: false, queries_only: false, updates_then_query: false },
+        DynPlan { name: "3 labels, from the empty solver, CaDiCaL".into(), kinds: kinds.clone(), n_labels: 3, depth: if thorough { 7 } else { 6 }, bad_budget: 0, max_queries: 3, prefixes: vec![vec![]], backend: Backend::Cadical, only_with_bad: false, queries_only: false, updates_then_query: false },
+        DynPlan { name: "2 labels, from the empty solver, oracle choices".into(), kinds: kinds.clone(), n_labels: 2, depth: if thorough { 7 } else { 6 }, bad_budget: 0, max_queries: 3, prefixes: vec![vec![]], backend: choice(if thorough { 2 } else { 1 }), only_with_bad: false, queries_only: false, updates_then_query: false },
+        DynPlan { name: "3 labels, from the empty solver, oracle choices".into(), kinds: kinds.clone(), n_labels: 3, depth: if thorough { 6 } else { 5 }, bad_budget: 0, max_queries: 2, prefixes: vec![vec![]], backend: choice(1), only_with_bad: false, queries_only: false, updates_then_query: false },
+        DynPlan { name: "non-initial starts: every framework with <=3 arguments, compact and sparse-id construction, then all continuations, oracle choices".into(), kinds: kinds.clone(), n_labels: 3, depth: if thorough { 3 } else { 2 }, bad_budget: 0, max_queries: 3, prefixes: start_states(3), backend: choice(2), only_with_bad: false, queries_only: false, updates_then_query: false },
     ];
     // 4 labels: from every isomorphism class of 4-argument frameworks (compact and sparse-id
     // construction), every sequence of queries (cached answers across queries without updates)
@@ -288,9 +291,9 @@ pub fn run_c08(tier: Tier) -> i32 {
             }
         }
         if thorough {
-            plans.push(DynPlan { name: "4 labels: one framework per isomorphism class of U(4), then every sequence of 3 queries, CaDiCaL".into(), kinds: kinds.clone(), n_labels: 4, depth: if thorough { 3 } else { 2 }, bad_budget: 0, max_queries: 3, prefixes: starts.clone(), backend: Backend::Cadical, only_with_bad: false, queries_only: true });
+            plans.push(DynPlan { name: "4 labels: one framework per isomorphism class of U(4), then every sequence of 3 queries, CaDiCaL".into(), kinds: kinds.clone(), n_labels: 4, depth: if thorough { 3 } else { 2 }, bad_budget: 0, max_queries: 3, prefixes: starts.clone(), backend: Backend::Cadical, only_with_bad: false, queries_only: true, updates_then_query: false });
         }
-        plans.push(DynPlan { name: "4 labels: one framework per isomorphism class of U(4), then every sequence of 2 queries, oracle choices".into(), kinds: kinds.clone(), n_labels: 4, depth: 2, bad_budget: 0, max_queries: 3, prefixes: starts, backend: choice(1), only_with_bad: false, queries_only: true });
+        plans.push(DynPlan { name: "4 labels: one framework per isomorphism class of U(4), then every sequence of 2 queries, oracle choices".into(), kinds: kinds.clone(), n_labels: 4, depth: 2, bad_budget: 0, max_queries: 3, prefixes: starts, backend: choice(1), only_with_bad: false, queries_only: true, updates_then_query: false });
     }
     let _ = graphs_note(&[]);
     for p in &plans {
@@ -314,11 +317,16 @@ pub fn run_c09(tier: Tier) -> i32 {
     let kinds = all_kinds();
     let choice = |d: usize| Backend::Choice(ExploreCfg { dev_bound: Some(d), fv: FvPolicy::False, cap_alts: 16, max_execs: 400, ..ExploreCfg::default() });
     let mut plans = vec![
-        DynPlan { name: "2 labels + one never-declared label, <=2 bad updates, CaDiCaL".into(), kinds: kinds.clone(), n_labels: 2, depth: if thorough { 6 } else { 5 }, bad_budget: 2, max_queries: 2, prefixes: vec![vec![]], backend: Backend::Cadical, only_with_bad: true, queries_only: false },
-        DynPlan { name: "2 labels + one never-declared label, <=1 bad update, oracle choices".into(), kinds: kinds.clone(), n_labels: 2, depth: if thorough { 6 } else { 5 }, bad_budget: 1, max_queries: 2, prefixes: vec![vec![]], backend: choice(1), only_with_bad: true, queries_only: false },
-        DynPlan { name: "non-initial starts (<=2 arguments, compact and sparse), then <=1 bad update within 3 operations".into(), kinds: kinds.clone(), n_labels: 2, depth: 3, bad_budget: 1, max_queries: 2, prefixes: start_states(2), backend: Backend::Cadical, only_with_bad: true, queries_only: false },
+        DynPlan { name: "2 labels + one never-declared label, <=2 bad updates, CaDiCaL".into(), kinds: kinds.clone(), n_labels: 2, depth: if thorough { 6 } else { 5 }, bad_budget: 2, max_queries: 2, prefixes: vec![vec![]], backend: Backend::Cadical, only_with_bad: true, queries_only: false, updates_then_query: false },
+        DynPlan { name: "2 labels + one never-declared label, <=1 bad update, oracle choices".into(), kinds: kinds.clone(), n_labels: 2, depth: if thorough { 6 } else { 5 }, bad_budget: 1, max_queries: 2, prefixes: vec![vec![]], backend: choice(1), only_with_bad: true, queries_only: false, updates_then_query: false },
+        DynPlan { name: "non-initial starts (<=2 arguments, compact and sparse), then <=1 bad update within 3 operations".into(), kinds: kinds.clone(), n_labels: 2, depth: 3, bad_budget: 1, max_queries: 2, prefixes: start_states(2), backend: Backend::Cadical, only_with_bad: true, queries_only: false, updates_then_query: false },
     ];
-    plans.push(DynPlan { name: "2 labels + one never-declared label, exactly 1 bad update, CaDiCaL, deeper".into(), kinds: kinds.clone(), n_labels: 2, depth: if thorough { 8 } else { 6 }, bad_budget: 1, max_queries: 2, prefixes: vec![vec![]], backend: Backend::Cadical, only_with_bad: true, queries_only: false });
+    if thorough {
+        // 3 labels from sparse 3-argument frameworks: three updates (exactly one redundant / invalid) and a final query
+        let starts: Vec<Vec<Op>> = crate::universe::universe_upto(3).into_iter().filter(|g| g.n >= 2 && g.att.len() <= 2).map(|g| construction_history(&g, false)).collect();
+        plans.push(DynPlan { name: "3 labels: from every framework with 2-3 arguments and <= 2 attacks, 3 updates (1 bad) then one query, CaDiCaL".into(), kinds: vec![DynKind::Complete, DynKind::Stable, DynKind::Preferred, DynKind::CompleteAtt(1), DynKind::StableAtt(1), DynKind::DummyCoPr, DynKind::DummySt], n_labels: 3, depth: 4, bad_budget: 1, max_queries: 1, prefixes: starts, backend: Backend::Cadical, only_with_bad: true, queries_only: false, updates_then_query: true });
+    }
+    plans.push(DynPlan { name: "2 labels + one never-declared label, exactly 1 bad update, CaDiCaL, deeper".into(), kinds: kinds.clone(), n_labels: 2, depth: if thorough { 8 } else { 6 }, bad_budget: 1, max_queries: 2, prefixes: vec![vec![]], backend: Backend::Cadical, only_with_bad: true, queries_only: false, updates_then_query: false });
     for p in &plans {
         let t = std::time::Instant::now();
         let acc = run_plan(p);
